@@ -257,7 +257,8 @@ def main(argv):
             cfgs = (a.configs.split(",") if a.configs else ALL_CONFIGS)
             n1, n2 = int(1000000 * a.scale), int(600000 * a.scale)
         exes = build_many(cfgs)
-        m = run_rounds(1 if a.tier == "quick" else 3, "c11", "gen", (n1 // NCPU + 1, n2 // NCPU + 1), [(c, exes[c]) for c in cfgs], a.seed, timeout=3600)
+        m = run_rounds(1 if a.tier == "quick" else 3, "c11", "gen", (n1 // NCPU + 1, n2 // NCPU + 1), [(c, exes[c]) for c in cfgs], a.seed, timeout=3600,
+                       split=1 if a.tier == "quick" else 2, count_idx=(0, 1))
         rep.merge(m)
         rep.require("sc25519:rational", "scp256:rational", "sc448:rational", "sc448:convergent", "g512:rational", "g127:rational",
                     "jq255e:assembled-halves", "secp256k1:rounding-boundary", "gls254:assembled-halves", "gls254odd:random", "jq255e:limb-rounding-boundary", "gls254:limb-rounding-boundary", "secp256k1:limb-rounding-boundary",
